@@ -1271,7 +1271,11 @@ class Store:
         if isinstance(target_port, tuple):
             target_port = move['target'][0]
             extended_path = move['target'][1:]
-        target_topology = process_store.topology[target_port] + extended_path
+        target_wiring = process_store.topology[target_port]
+        if isinstance(target_wiring, dict):
+            # a port wired with a dictionary reads the node at '_path'
+            target_wiring = tuple(target_wiring.get('_path', ()))
+        target_topology = target_wiring + extended_path
         target_node = process_store.outer.get_path(target_topology)
         target = target_node.add_node(source_path, source_node)
         # add_node returns the parent the node was attached to
